@@ -45,6 +45,16 @@ def _setup(w, op, h0, sp, s0, s1):
             c.add_streamed_object(w.stream(0, s0))
             c.add_streamed_object(w.stream(1, s1))
 
+    elif op == 'pack_pending':  # obj0 is loose AND was just written to a pack by the same handle with do_commit=False
+        w.put_loose(0, s0)
+        w.put_loose(1, s1)
+        pre += [(0, s0), (1, s1)]
+
+        def run(c):
+            c.add_streamed_objects_to_pack([w.stream(0, s0)], do_commit=False)
+            c.pack_all_loose(clean_loose_per_pack=True)
+            c.clean_storage()
+
     elif op == 'delete':  # obj0 loose is deleted, obj2 (packed) too; obj1 (loose) and obj3 (packed) stay
         w.put_loose(0, s0)
         w.put_loose(1, s1)
@@ -135,6 +145,15 @@ def _fresh_reads_ok(w, img, op, pre, new):
                     return False
                 continue
             if not (got == w.content(i, size)):
+                return False
+        if op == 'repack':
+            # the next maintenance run on the crashed container: repack again (it may refuse); whatever it does, every
+            # object is still where the index says
+            try:
+                h.repack()
+            except (AssertionError, OSError, ValueError):
+                pass
+            if not inv_ok(w.image_of(h), w, objs_map(w, pre), exact=False):
                 return False
         return True
     finally:
